@@ -495,9 +495,17 @@ func (o *Ownership) scan(f *ssa.Function, report bool) bool {
 								if sv := singleStore(al); sv != nil {
 									if l, ok := sv.(*ssa.UnOp); ok {
 										if outer := sliceOf(l.X); outer != nil {
-											curCalleeElems, curCalleeParam, curCalleeField = true, pi, field
-											noteElemWrite(outer, x, "call:"+FnName(originOf(callee))+" (field "+field+" of a copied element)", callee)
-											curCalleeElems, curCalleeParam, curCalleeField = false, -1, ""
+											targets := []ssa.Value{outer}
+											if isFreshSlice(o.p, outer, 0) {
+												// the element was copied out of a shallow clone: its inner slice is still the source's
+												// (slices.Clip, a reslice or nothing at all in place of the inner clone leave it shared)
+												targets = shallowCloneSources(outer, 0)
+											}
+											for _, t := range targets {
+												curCalleeElems, curCalleeParam, curCalleeField = true, pi, field
+												noteElemWrite(t, x, "call:"+FnName(originOf(callee))+" (field "+field+" of a copied element)", callee)
+												curCalleeElems, curCalleeParam, curCalleeField = false, -1, ""
+											}
 											continue
 										}
 									}
